@@ -393,6 +393,100 @@ func main() {
 		}
 	})
 
+	// combs: a size-parameterised family. The clipped ring grows by one or two vertices per tooth that leaves
+	// the box, so the number of teeth drives the intermediate vertex lists far past the input length.
+	maxTeeth := ev.Pick(r, 14, 40)
+	r.Explore("combs", fmt.Sprintf("square body with 1..%d teeth (single-vertex spikes or two-vertex square teeth) leaving the box through every non-empty subset of its four sides x both orientations x start vertex rotations (quick: 6, thorough: all): vertices in box, closure, membership on a half-unit lattice in the tooth bands, exact area", maxTeeth), mc.Opts{MaxDev: -1, Split: 3}, func(c *mc.Ctx) {
+		n := 1 + c.Choose(maxTeeth)
+		mask := 1 + c.Choose(15)
+		square := c.Bool()
+		cw := c.Bool()
+		L := float64(4*n + 4)
+		box := orb.Bound{Min: orb.Point{0, 0}, Max: orb.Point{L, L}}
+		at := func(side int, t, d float64) orb.Point {
+			switch side {
+			case 0:
+				return orb.Point{t, d}
+			case 1:
+				return orb.Point{L - d, t}
+			case 2:
+				return orb.Point{L - t, L - d}
+			}
+			return orb.Point{d, L - t}
+		}
+		var ring orb.Ring
+		want := (L - 4) * (L - 4)
+		for side := 0; side < 4; side++ {
+			ring = append(ring, at(side, 2, 2))
+			if mask&(1<<side) == 0 {
+				continue
+			}
+			for k := 0; k < n; k++ {
+				t0 := float64(4*k + 3)
+				if square {
+					ring = append(ring, at(side, t0, 2), at(side, t0, -2), at(side, t0+2, -2), at(side, t0+2, 2))
+					want += 4
+				} else {
+					ring = append(ring, at(side, t0, 2), at(side, t0+1, -2), at(side, t0+2, 2))
+					want += 3
+				}
+			}
+		}
+		if cw {
+			for i, j := 0, len(ring)-1; i < j; i, j = i+1, j-1 {
+				ring[i], ring[j] = ring[j], ring[i]
+			}
+			want = -want
+		}
+		rot := 0
+		if r.Quick() {
+			rot = []int{0, 1, 2, len(ring) / 2, len(ring) - 2, len(ring) - 1}[c.Choose(6)] % len(ring)
+		} else {
+			rot = c.Choose(len(ring))
+		}
+		ring = append(append(orb.Ring{}, ring[rot:]...), ring[:rot]...)
+		ring = append(ring, ring[0])
+		c.NonTrivial()
+		got := clip.Ring(box, ring.Clone())
+		desc := func() string { return fmt.Sprintf("teeth=%d sides=%04b square=%v cw=%v rot=%d box=%v ring=%v got=%v", n, mask, square, cw, rot, box, ring, got) }
+		for _, p := range got {
+			if !box.Contains(p) {
+				c.Failf("vertex-outside", "vertex %v outside the box | %s", p, desc())
+				return
+			}
+		}
+		if len(got) == 0 || got[0] != got[len(got)-1] {
+			c.Failf("not-closed", "clipped ring is empty or not closed | %s", desc())
+			return
+		}
+		if a := area(got); math.Abs(a-want) > 1e-9 {
+			c.Failf("comb-area", "signed area of the clipped ring is %v, the part of the ring inside the box has %v | %s", a, want, desc())
+			return
+		}
+		ex := scaled(ring)
+		for side := 0; side < 4; side++ {
+			for ti := 0; ti < int(2*L); ti++ {
+				for di := 0; di < 6; di++ {
+					q := at(side, float64(ti)/2+1.0/7, float64(di)/2+1.0/11)
+					if !strictlyIn(box, q) {
+						continue
+					}
+					in, bd := exact.InRingI(ex, exact.IP{int64(math.Round(q[0] * S)), int64(math.Round(q[1] * S))})
+					if bd {
+						continue
+					}
+					if g := inFloat(got, q); g != in {
+						c.Failf("region", "point %v: in clipped ring = %v, in original ring = %v | %s", q, g, in, desc())
+						return
+					}
+				}
+			}
+		}
+		if g, ok := clip.Geometry(box, orb.Polygon{ring.Clone()}).(orb.Polygon); !ok || len(g) != 1 || !bitsEq(g[0], got) {
+			c.Failf("generic", "clip.Geometry of the one-ring polygon = %v differs from clip.Ring | %s", g, desc())
+		}
+	})
+
 	// clip.Bound: box intersection
 	r.Explore("bound", "all pairs of boxes over {0,1,2,3}^2 corners: clip.Bound is the intersection", mc.Opts{MaxDev: -1}, func(c *mc.Ctx) {
 		mk := func() orb.Bound {
